@@ -282,6 +282,10 @@ def _fit_level(ctx, N):
                 bound = _trunc_bound(v.term)
                 ok = bound is not None and N.nf(bound) == N.nf(nsel.term)
                 ctx.ob("R-TRUNC", f"{b} cut to n_selected_ on a threshold stop", ok, f"bound of the cut is {bound!r}, number of selections is {nsel.term!r}", f"{rets[0]['func']}:{rets[0]['line']}", cfg)
+                # ... and what is cut is the buffer the search filled, not the input in its own order
+                src_in = sorted(o_[1] for o_ in v.orig if isinstance(o_, tuple) and o_[0] == "in")
+                base_t = v.term.args[0] if v.term.op == "getitem" else None
+                ctx.ob("R-TRUNC", f"{b} on a threshold stop is a prefix of the buffer the search filled", not src_in and not (base_t is not None and base_t.op == "sym" and base_t.args[0] in ("X", "y")), f"a view of the caller's {src_in or [base_t.args[0]]}: {repr(v.term)[:120]}" if (src_in or (base_t is not None and base_t.op == 'sym' and base_t.args[0] in ('X', 'y'))) else "selection-ordered buffer", f"{rets[0]['func']}:{rets[0]['line']}", cfg)
                 if b == "X_selected_" and bound is not None:
                     cut_axis = _trunc_axis(v.term)
                     ctx.ob("R-TRUNC", f"X_selected_ is cut along the selection axis on a threshold stop [{cfg}]", cut_axis == axis, f"cut along axis {cut_axis}, selection axis {axis}", f"{rets[0]['func']}:{rets[0]['line']}", cfg)
